@@ -121,6 +121,7 @@ structure SimS where
   nextSched : Option Nat := none          -- `_next_scheduler_event` (event id)
   lastSchedStart : Int := 0
   lastPlacements : Option Decision := none
+  followedUp : List Nat := []      -- `Workload._task_graphs_followed_up` (graph indices)
   finishedTasks : Nat := 0
   cancelledTasks : Nat := 0
   missedTaskDeadlines : Nat := 0
@@ -286,6 +287,9 @@ def notifyGraphCompletion (gi : Nat) (finish : Int) : SimM (List TaskId) := do
   let some m := s.metas[gi]? | throw .keyError
   let some j := s.jobs[m.job]? | throw .keyError
   if !j.closedLoop then return []
+  -- a task graph unlocks at most one follow-up, however often its end is reported
+  if s.followedUp.contains gi then return []
+  modify fun s => { s with followedUp := gi :: s.followedUp }
   if j.remaining > 0 then
     let idx := j.index + 1
     -- `_generate_task_graph` draws twice from `EventTime.fuzz`; the second value is the deadline offset
